@@ -43,7 +43,8 @@ from props import C01 as base
 
 ID = 'C09'
 LEVEL = 'other'
-P_TARGETS = ['cgsmiles.pysmiles_utils:rebuild_h_atoms']
+P_TARGETS = ['cgsmiles.pysmiles_utils:rebuild_h_atoms',
+             'cgsmiles.pysmiles_utils:compute_mass']
 BUDGET = {'quick': 30.0, 'thorough': 300.0}
 CHUNK = 50
 BOUNDS = {
